@@ -73,7 +73,7 @@ func foreignListener(port int, holderInode string) (bool, string) {
 	if ino == "" || ino == holderInode {
 		return false, ino
 	}
-	return h.OwnTCPListenPorts()[port], ino
+	return ownsInode(ino), ino
 }
 
 func unstartableVisitorCase(c *h.Case) {
